@@ -1,0 +1,26 @@
+//go:build verif
+
+package taint
+
+import (
+	"github.com/awslabs/ar-go-tools/analysis/config"
+	"github.com/awslabs/ar-go-tools/analysis/dataflow"
+	"golang.org/x/tools/go/ssa"
+)
+
+// Re-exports for the verification harness (property C02). Add-only, compiled only with -tags verif.
+
+// VerifC02IsValidatorCondition re-exports isValidatorCondition (polarity handling of validator conditions).
+func VerifC02IsValidatorCondition(ts *config.TaintSpec, v ssa.Value, isPositive bool) bool {
+	return isValidatorCondition(ts, v, isPositive)
+}
+
+// VerifC02IsSanitizer re-exports isSanitizer (the test that stops the traversal at a node).
+func VerifC02IsSanitizer(state *dataflow.AnalyzerState, ts *config.TaintSpec, n dataflow.GraphNode) bool {
+	return isSanitizer(state, ts, n)
+}
+
+// VerifC02IsSink re-exports isSink.
+func VerifC02IsSink(state *dataflow.AnalyzerState, ts *config.TaintSpec, n dataflow.GraphNode) bool {
+	return isSink(state, ts, n)
+}
